@@ -13,11 +13,12 @@ RULE = ('HIST histories restricted to add_fp (1-3 namespaces), add_hard_link (ev
         'rm_hard_link, rm_file (by each namespace), add_eltorito/rm_eltorito and restarts, >= 30% zero-length files; after every edit the API '
         'view must equal the model (all names of a blob read its bytes; rm_file removes exactly the names of that content); after every '
         'write the image is stripe-scanned: every attributable stripe belongs to a live blob and occurs exactly once (stored once, released '
-        'with the last reference incl. El Torito entries), and names share data sectors iff they are links; non-trivial: >= 3 accepted edits, '
+        'with the last reference incl. El Torito entries), names share data sectors iff they are links, and (images without Rock Ridge) no sector '
+        'inside the volume is left that no structure refers to; non-trivial: >= 3 accepted edits, '
         '>= 1 write, >= 1 link or removal; distinct = model shape fingerprints')
 BUDGET = {'quick': 40, 'thorough': 900}
 PROBES = ['stripe_scans', 'blob_released', 'blob_kept_by_eltorito_only', 'link_removed_via_other_namespace', 'zero_length_removed_after_restart',
-          'rm_file_multi_name', 'cross_namespace_link', 'bootcat_link']
+          'rm_file_multi_name', 'cross_namespace_link', 'bootcat_link', 'orphan_scans']
 ASSUMPTIONS = c01.ASSUMPTIONS + ['attributable stripes: a 64-byte stripe header names its blob and offset; tails shorter than 16 bytes are not scanned']
 
 PROFILE = H.Profile('c07', nops=(4, 26), zero_bias=0.3,
@@ -102,6 +103,8 @@ class C07(c01.C01):
             self._ndead = len(m.dead_blobs)
             if m.generation > 0 and k == 'rm_file':
                 ctx.probes['zero_length_removed_after_restart'] += 1 if op.get('_zero') else 0
+        if k == 'rm_eltorito':
+            self._rm_et = True
         for bid in m.eltorito_blobs():
             if bid in m.blobs and not m.names_of_blob(bid):
                 ctx.probes['blob_kept_by_eltorito_only'] += 1
@@ -115,6 +118,15 @@ class C07(c01.C01):
         for rule, detail in alloc.check(am, data, ctx.model, hybrid=bool(ctx.model.hybrid)):
             if rule[0] in ('sharing', 'overlap', 'length'):
                 ctx.violate(rule, detail, fatal=False)
+        # space is released with the last reference: no sector inside the volume that nothing refers to.  Judged on
+        # images without Rock Ridge only - with it, an emptied continuation block stays allocated for reuse (by design).
+        if not ctx.model.rr:
+            orphans = alloc.orphan_sectors(am, data)
+            if orphans is not None:
+                ctx.probes['orphan_scans'] += 1
+                if orphans:
+                    ctx.violate(('space', 'unreferenced-sectors', 'eltorito-was-removed' if getattr(self, '_rm_et', False) else 'no-eltorito-removal'),
+                                '%d sector(s) inside the volume belong to nothing: %r' % (sum(n for _, n in orphans), orphans[:4]), fatal=False)
 
 
 def generate(seed, tier='quick'):
